@@ -116,6 +116,10 @@ def layouts(ctx):
         fs[nm + ".json"] = sc
         mp[idv] = ("example.com/p%d" % i, "p%d/gen.go" % i)
     out.append(("id-spellings", fs, mp, [sorted(fs), ["f5.json"]], None))
+    # two ids mapped to ONE file of one package under different spellings of its path: the file holds both schemas' code, in every order
+    for si, (sp1, sp2) in enumerate((("pk/gen.go", "./pk/gen.go"), ("pk/gen.go", "pk/../pk/gen.go"), ("./pk//gen.go", "pk/gen.go"))):
+        out.append(("one-file-two-spellings-%d" % si, {"p.json": P2, "q.json": Q2}, {"http://x/p": ("example.com/pk", sp1), "http://x/q": ("example.com/pk", sp2)},
+                    [["p.json", "q.json"], ["q.json", "p.json"]], None))
     return out
 
 
@@ -172,7 +176,7 @@ def run(ctx):
     for li, (name, files, maps, arglists, same_as) in enumerate(lay):
         fs = {"in/" + k: json.dumps(v) for k, v in files.items()}
         for a in arglists[0]:
-            if len(arglists[0]) > 1 and files[a].get("$id") in maps and not name.startswith("same-id"):
+            if len(arglists[0]) > 1 and files[a].get("$id") in maps and not name.startswith("same-id") and not name.startswith("one-file-two-spellings"):
                 alone.append((li, a, Run("l%da%s" % (li, a.replace("/", "_").replace(".", "_")), fs, argv_for(maps, [a]))))
     run_all(ctx, runs + [x[2] for x in alone])
     by = {}
@@ -207,13 +211,13 @@ def run(ctx):
         # every mapped schema that was loaded lands in its own file, with its own package clause
         scan_req = [{"id": k, "src": v.decode("utf-8", "replace")} for k, v in first.created.items() if k.endswith(".go")]
         scans = {s["id"]: s for s in ctx.jsonl("scan", scan_req)} if scan_req else {}
-        expected_files = set("out/" + o for (pk, o) in maps.values()) if maps else {"out/dflt/gen.go"}
+        expected_files = set(os.path.normpath("out/" + o) for (pk, o) in maps.values()) if maps else {"out/dflt/gen.go"}
         loaded_all = name != "defaults"
         if set(first.created) != expected_files:
             viol(first, "layout %s: files written %s, expected %s" % (name, sorted(first.created), sorted(expected_files)))
             continue
         for i, (pk, o) in maps.items():
-            s = scans.get("out/" + o)
+            s = scans.get(os.path.normpath("out/" + o))
             if s is None or s["package"] != pk.rsplit("/", 1)[-1]:
                 viol(first, "layout %s: schema %s should be in package %s file %s, found package %s" % (name, i, pk, o, s and s["package"]))
         # declarations: each type name at most once across the files of one package, root types present
@@ -227,7 +231,7 @@ def run(ctx):
         # every file given on the command line: its root type and its definitions are declared in the file its id maps to
         for a in arglists[0]:
             sc = files[a]
-            target = "out/" + (maps[sc["$id"]][1] if sc.get("$id") in maps else "dflt/gen.go")
+            target = os.path.normpath("out/" + (maps[sc["$id"]][1] if sc.get("$id") in maps else "dflt/gen.go"))
             have = set(t["name"] for t in scans.get(target, {"types": []})["types"])
             want = set([root_type_name(a)] + [d[:1].upper() + d[1:] for d in list(sc.get("$defs", {})) + list(sc.get("definitions", {})) if d.isalnum()])
             if not want <= have:
@@ -239,7 +243,7 @@ def run(ctx):
             if li2 != li:
                 continue
             ctx.count({"layout": name, "alone": a}, True, "layouts/" + name)
-            target = "out/" + maps[files[a]["$id"]][1]
+            target = os.path.normpath("out/" + maps[files[a]["$id"]][1])
             if ra.status != 0:
                 viol(ra, "layout %s: %s alone fails: %s" % (name, a, ra.stderr.decode("utf-8", "replace")[:200]))
             elif ra.created.get(target) != first.created.get(target):
